@@ -63,6 +63,8 @@ async fn asynchronous(worterbuch: &CloneableWbApi, config: &Config) -> Persisten
         grave_goods_last_will_path_checksum,
         last_persisted,
     ) = file_paths(config, true).await?;
+    #[cfg(feature = "verif")]
+    crate::verif::fs_step("pick-idle-slot");
 
     // the store file is written last: a slot whose store validates is complete
     let gglw_json = serde_json::to_string(&GraveGoodsLastWill {
@@ -104,6 +106,8 @@ pub(crate) async fn synchronous(
         grave_goods_last_will_path_checksum,
         last_persisted,
     ) = file_paths(config, true).await?;
+    #[cfg(feature = "verif")]
+    crate::verif::fs_step("pick-idle-slot");
 
     debug!("Exporting database state …");
     let (data, grave_goods, last_will) = worterbuch.export();
@@ -355,8 +359,6 @@ pub(crate) async fn file_paths(
 async fn toggle_alternating_files(path: &Path, write: bool) -> PersistenceResult<bool> {
     let selected = File::open(path).await.is_ok();
     if write {
-        #[cfg(feature = "verif")]
-        crate::verif::fs_step("pick-idle-slot");
         debug!(
             "toggle file {} {}, writing to {}",
             path.to_string_lossy(),
